@@ -203,8 +203,48 @@ fn run_budget<const N: usize>(
         Ok(Ok(d)) => d,
         _ => return, // tape construction is C01's claim
     };
+    let f_fresh = GenericVmFunction::<N>::from(data);
+    // simplified tapes contain ops that fresh tapes never do (CopyReg,
+    // CopyImm): every distinct point trace of the function gives one more tape
+    // to serialize and execute
+    {
+        use fidget_core::eval::Function;
+        let f = &f_fresh;
+        let tape = f.point_tape(Default::default());
+        let mut seen: Vec<Vec<u8>> = vec![];
+        for pt in points {
+            let args = refsem::args_for(f.vars(), flat, pt);
+            let mut ev = GenericVmFunction::<N>::new_point_eval();
+            let Ok(Ok(Some(trace))) = guard(|| ev.eval(&tape, &args).map(|(_, t)| t.cloned())) else { continue };
+            let key: Vec<u8> = trace.as_slice().iter().map(|c| *c as u8).collect();
+            if seen.contains(&key) {
+                continue;
+            }
+            seen.push(key);
+            let Ok(Ok(child)) = guard(|| f.simplify(&trace, Default::default(), &mut Default::default())) else { continue };
+            cx.add("simplified_tapes_serialized", 1);
+            let d2 = || {
+                let mut d = desc();
+                d["simplified_with_point_trace_at"] = json!(pt);
+                d
+            };
+            check_data::<N>(&child, flat, std::slice::from_ref(pt), roots.len(), &d2, cx);
+        }
+    }
+    check_data::<N>(&f_fresh, flat, points, roots.len(), desc, cx);
+}
+
+fn check_data<const N: usize>(
+    f: &GenericVmFunction<N>,
+    flat: &Flat,
+    points: &[Vec<f32>],
+    n_roots: usize,
+    desc: &dyn Fn() -> serde_json::Value,
+    cx: &mut Cx,
+) {
+    let data = f.data();
     let n_ops = data.len();
-    let bc = match guard(|| Bytecode::new(&data)) {
+    let bc = match guard(|| Bytecode::new(data)) {
         Ok(Ok(b)) => b,
         Ok(Err(e)) => {
             cx.violation(
@@ -238,7 +278,6 @@ fn run_budget<const N: usize>(
     if (bc.mem_count() > 0) != has_mem && data.slot_count() > N {
         cx.add("mem_count_zero_although_slots", 1);
     }
-    let f = GenericVmFunction::<N>::from(data);
     let tape = f.point_tape(Default::default());
     for pt in points {
         let args = refsem::args_for(f.vars(), flat, pt);
@@ -252,7 +291,7 @@ fn run_budget<const N: usize>(
             bc.reg_count() as usize,
             bc.mem_count() as usize,
             &args,
-            roots.len(),
+            n_roots,
         ) {
             Err(e) => {
                 cx.violation(
@@ -399,7 +438,7 @@ impl Check for C15 {
     }
     fn meta(&self, tier: Tier) -> Meta {
         Meta {
-            rule: "case = (program, register budget N in {3,4,5,8,255} (+all C01 budgets for families)); programs as in C01: every opcode x operand form x value alphabet, every DAG up to the node bound, fan/tree families, two huge programs (300 / 1400 simultaneously live values: memory slot numbers beyond one byte) and output lists with a repeated node; Bytecode::new(tape) is executed by a documentation-only interpreter (opcode numbers by name from iter_ops(), 0xFF = immediate, Mem direction by which byte is 0xFF) and compared bit-for-bit (NaN = NaN) with the VM point evaluator; markers, word count, register and memory bounds and the reserved register are checked on every bytecode".into(),
+            rule: "case = (program, register budget N in {3,4,5,8,255} (+all C01 budgets for families)); programs as in C01: every opcode x operand form x value alphabet, every DAG up to the node bound, fan/tree families, two huge programs (300 / 1400 simultaneously live values: memory slot numbers beyond one byte) and output lists with a repeated node; Bytecode::new(tape) is executed by a documentation-only interpreter (opcode numbers by name from iter_ops(), 0xFF = immediate, Mem direction by which byte is 0xFF) and compared bit-for-bit (NaN = NaN) with the VM point evaluator; the same for the tape simplified with every distinct point trace (simplified tapes contain CopyReg / CopyImm); markers, word count, register and memory bounds and the reserved register are checked on every bytecode".into(),
             bounds: match tier {
                 Tier::Quick => "DAG nodes <= 3, family width <= 12".into(),
                 Tier::Thorough => "DAG nodes <= 4, family width <= 24".into(),
